@@ -348,6 +348,12 @@ def sample(ctx, budget=1.0, hint=None, broken=None):
                 fail('Path.T2t/zero-length-segment', 'a zero-length non-leading segment was selected', {'path': desc, 'T': T}, repr((k, t)), 'a segment of positive length')
             if not (cums[k] - 1e-12 <= T <= cums[k + 1] + 1e-12):
                 fail('Path.T2t/interval', 'T is outside the T-interval of the returned segment', {'path': desc, 'T': T}, repr((k, t, cums[k], cums[k + 1])), 'cum_k <= T <= cum_{k+1}')
+            if lens[k] > 0:
+                # ... and t is the fraction of that interval: the segment is traversed linearly in T
+                t_exp = (T - cums[k]) / (lens[k] / tot)
+                if abs(t - t_exp) > 1e-9 + 10 * slack:
+                    fail('Path.T2t/parameter', 'T2t returns the right segment but not the parameter (T - T_k) / (len_k / L)', {'path': desc, 'T': T}, repr((k, t)), repr((k, t_exp)),
+                         'svgpathtools.%s.T2t(%r)' % (desc.replace('\n', ' '), T) if 'then' not in desc else '')
             back = path.t2T(k, t)
             if abs(back - T) > 1e-12:
                 fail('Path.t2T/roundtrip', 't2T(T2t(T)) != T', {'path': desc, 'T': T}, repr(back), repr(T))
